@@ -1070,4 +1070,76 @@ theorem cascRule_body (vfs : Vfs) (who : Who) : ∀ (r : Rule) (th : Str) (c : L
     simp [cascRule, keep1, appended] at h; subst h; simp [bodyRule, List.filter_cons, notImp, isImp]
 end
 
+/-! ### when hoisting changes anything: the region of C19-kept-import-hoisted as a decidable predicate -/
+
+/-- the kept @imports already stand in front of everything else -/
+def importsFirst : List Rule → Bool
+  | [] => true
+  | r :: rs => if isImp r then importsFirst rs else rs.all notImp
+
+/-- … behind at most one leading comment (or @charset) -/
+def hoisted (c : List Rule) : Bool :=
+  match c with
+  | .comment _ :: rest => importsFirst rest
+  | .charset _ :: rest => importsFirst rest
+  | _ => importsFirst c
+
+theorem split_eq_self_iff : ∀ l : List Rule,
+    l.filter isImp ++ l.filter (fun r => !isImp r) = l ↔ importsFirst l = true
+  | [] => by simp [importsFirst]
+  | r :: rs => by
+    cases hr : isImp r with
+    | true =>
+      simp only [List.filter_cons, hr, ↓reduceIte, Bool.not_true, Bool.false_eq_true, List.cons_append,
+        List.cons.injEq, true_and, importsFirst]
+      exact split_eq_self_iff rs
+    | false =>
+      simp only [List.filter_cons, hr, Bool.false_eq_true, ↓reduceIte, Bool.not_false, importsFirst]
+      constructor
+      · intro h
+        have hnil : rs.filter isImp = [] := by
+          cases hk : rs.filter isImp with
+          | nil => rfl
+          | cons x xs =>
+            rw [hk] at h
+            simp at h
+            have hx : isImp x = true := by
+              have : x ∈ rs.filter isImp := by rw [hk]; simp
+              exact (List.mem_filter.mp this).2
+            rw [h.1, hr] at hx
+            simp at hx
+        simp only [List.all_eq_true, notImp]
+        intro x hx
+        cases hi : isImp x with
+        | false => rfl
+        | true =>
+          have : x ∈ rs.filter isImp := List.mem_filter.mpr ⟨hx, hi⟩
+          rw [hnil] at this; simp at this
+      · intro h
+        have hall : ∀ x ∈ rs, isImp x = false := by
+          intro x hx
+          have := List.all_eq_true.mp h x hx
+          simpa [notImp] using this
+        have e1 : rs.filter isImp = [] := by
+          simp only [List.filter_eq_nil_iff]; intro x hx; simp [hall x hx]
+        have e2 : rs.filter (fun r => !isImp r) = rs := by
+          simp only [List.filter_eq_self]; intro x hx; simp [hall x hx]
+        simp [e1, e2]
+
+/-- hoisting changes the list exactly when a rule other than one leading comment precedes a kept @import -/
+theorem hoist_eq_self_iff (c : List Rule) : hoist c = c ↔ hoisted c = true := by
+  cases c with
+  | nil => simp [hoist, hoisted, importsFirst]
+  | cons r rs =>
+    cases r with
+    | comment x => simp only [hoist, hoisted, List.cons.injEq, true_and]; exact split_eq_self_iff rs
+    | charset x => simp only [hoist, hoisted, List.cons.injEq, true_and]; exact split_eq_self_iff rs
+    | imp a b c d e => simp only [hoist, hoisted]; exact split_eq_self_iff _
+    | ns a b => simp only [hoist, hoisted]; exact split_eq_self_iff _
+    | style a b => simp only [hoist, hoisted]; exact split_eq_self_iff _
+    | media a b => simp only [hoist, hoisted]; exact split_eq_self_iff _
+    | page a b c => simp only [hoist, hoisted]; exact split_eq_self_iff _
+    | fontface a => simp only [hoist, hoisted]; exact split_eq_self_iff _
+    | unknown a => simp only [hoist, hoisted]; exact split_eq_self_iff _
+
 end CssVerif.Urls
